@@ -1,6 +1,7 @@
 package ast
 
 import (
+	"log"
 	"strconv"
 	"strings"
 )
@@ -547,9 +548,16 @@ func (imm *ImmExp) Eval(env Env) (Exp, bool) {
 		// '$' でない場合は、マクロをチェックします
 		macroExp, ok := env.LookupMacro(identValue)
 		if ok {
+			// 自分自身 (または互い) を参照する EQU 定義は無限再帰になるため、展開の深さを制限して診断を出します
+			if macroEvalDepth >= maxMacroEvalDepth {
+				log.Printf("error: EQU '%s' is defined in terms of itself (expansion deeper than %d levels)", identValue, maxMacroEvalDepth)
+				return imm, false
+			}
 			// マクロ定義を再帰的に評価します
 			// マクロ自体が評価されることを確認します
+			macroEvalDepth++
 			evalMacroExp, reduced := macroExp.Eval(env)
+			macroEvalDepth--
 			return evalMacroExp, reduced // 評価されたマクロ式を返します
 		}
 		// マクロでも '$' でもない場合は、未解決の識別子 (ラベルなど) です
@@ -563,6 +571,12 @@ func (imm *ImmExp) Eval(env Env) (Exp, bool) {
 		return imm, false
 	}
 }
+
+// EQU 展開の入れ子の深さ (循環定義の検出用)
+var macroEvalDepth int
+
+const maxMacroEvalDepth = 256
+
 func (imm *ImmExp) TokenLiteral() string {
 	return imm.Factor.TokenLiteral()
 }
